@@ -106,18 +106,26 @@ def size_cases(rnd, n):
     return out
 
 
-def el(k, n):
-    """bundle element number k (the id travels in the address) carrying a blob of n bytes (0: no blob)"""
-    return g.M('/%07d' % k, [{'t': 'b', 'z': n}] if n else [])
+def el(k, n, completion=False):
+    """bundle element number k (the id travels in the address) carrying a blob of n bytes (0: no blob) and,
+    optionally, a completion message (nested list -> blob)"""
+    args = [{'t': 'b', 'z': n}] if n else []
+    if completion:
+        args.append(g.M('/b_query', [g.I(k), g.S('ñ' * (k % 5))]))
+    return g.M('/%07d' % k, args)
 
 
 def clump_cases(rnd, nrand):
     cs = []
 
-    def add(site, blobs, lat, src):
-        cs.append(dict(kind='clump', site=site, lat=lat, els=[el(i + 1, n) for i, n in enumerate(blobs)], src=src))
+    def add(site, blobs, lat, src, completion=False):
+        cs.append(dict(kind='clump', site=site, lat=lat, src=src,
+                       els=[el(i + 1, n, completion and i % 2 == 0) for i, n in enumerate(blobs)]))
     for site in ('clumped', 'sync'):
         add(site, [600] * 110, 0.2, 'directed')                  # DESIGN 4 row 8
+        add(site, [590] * 110, 0.2, 'directed', completion=True)  # elements with completion messages
+        for n in range(620, 628):
+            add(site, [n] * 99, None, 'sweep', completion=True)
         add(site, [80] * 400, None, 'directed')                   # many small elements
         add(site, [40000] + [80] * 300, 0.0, 'directed')
         add(site, [0] * 5, None, 'directed')                      # not oversized: one bundle
@@ -127,6 +135,11 @@ def clump_cases(rnd, nrand):
             add(site, [n] * 99, None, 'sweep')                    # totals straddling the limit, all blob residues
         for n in range(65380, 65470, 7):
             add(site, [n, 0, 0, 0, 0, 0, 0], None, 'sweep')
+        # whole-bundle sizes 65472..65520 in steps of 4 (and blob residues): every value around both decisions
+        # "does it need splitting" (limit, and limit - 36 for sync where a /sync element is appended)
+        for b in list(range(65352, 65400, 4)) + [65361, 65378, 65387]:
+            add(site, [b, 0, 0, 0], None, 'sweep')
+            add(site, [0, 0, b, 0], 0.2, 'sweep')
     for _ in range(nrand):
         site = rnd.choice(['clumped', 'sync'])
         k = rnd.random()
@@ -142,17 +155,35 @@ def clump_cases(rnd, nrand):
             n = rnd.randint(50, 300)
             per = (LIMIT + rnd.randint(-400, 400)) // n - 24
             blobs = [max(0, per + rnd.randint(-3, 3)) for _ in range(n)]
-        add(site, blobs, rnd.choice([None, 0.0, 0.2]), 'random')
+        add(site, blobs, rnd.choice([None, 0.0, 0.2]), 'random', completion=rnd.random() < 0.3)
     return cs
 
 
-def dsend_cases():
+def Fn(v):
+    return {'t': 'fn', 'ret': v}
+
+
+def dsend_cases(thorough=False):
+    """SynthDef sending: every documented form of the completion message (None, message, bundle, a function of the
+    server returning each) through _do_send and its public callers send / add / store, with definition sizes
+    sweeping across the point where the /d_recv message crosses 65504 bytes (so the /d_recv vs /d_load choice flips)"""
+    direct = [g.K('N'), g.M('/s_new', [g.S('x'), g.I(1001)]), g.M('/s_new', [g.S('ñññññññ'), g.I(1001)]),
+              g.M('/s_new', [g.S('default'), g.I(-1), g.B(b'12345'), g.M('/n_set', [g.I(1000), g.S('freq'), g.F(440.0)])]),
+              g.M('/b_allocRead', [g.I(0), g.S('ü' * 200), g.M('/b_query', [g.I(0)])]),
+              g.Bn(g.Lat(0.5), [g.M('/s_new', [g.S('x')])])]
+    forms = direct + [Fn(v) for v in direct] + [Fn(Fn(g.K('N')))]
     out = []
-    for n in list(range(65470, 65492)) + [100, 4000, 65000, 70000]:
-        out.append(dict(kind='dsend', n=n, cm=g.K('N'), src='sweep'))
-    for n in range(65440, 65460, 3):
-        out.append(dict(kind='dsend', n=n, cm=g.M('/s_new', [g.S('x'), g.I(1001)]), src='sweep'))
-        out.append(dict(kind='dsend', n=n, cm=g.M('/s_new', [g.S('ñññññññ'), g.I(1001)]), src='sweep'))
+    for cm in forms:
+        x = 4 if strip_fn(cm)['t'] == 'N' else g.arg_len(cm)
+        star = LIMIT - 16 - x          # the largest (padded) definition that still fits
+        sweep = range(star - 9, star + 7) if thorough else range(star - 6, star + 5, 1)
+        for site in ('do_send', 'send', 'add', 'store'):
+            if site != 'send' and not thorough and cm['t'] != 'fn' and cm is not direct[1]:
+                continue        # quick: every form through send, function forms and one list form through all sites
+            for n in sweep:
+                out.append(dict(kind='dsend', site=site, n=n, cm=cm, src='sweep'))
+    for n in (100, 4000, 65000, 70000):
+        out.append(dict(kind='dsend', site='send', n=n, cm=g.K('N'), src='sweep'))
     return out
 
 
@@ -180,7 +211,13 @@ def case_features(c):
         for e in c['els']:
             g.features(e, f)
         return f
-    return {'blob'}
+    return g.features(g.M('/d_recv', [{'t': 'b', 'z': c['n']}] + ([] if c['cm']['t'] == 'N' else [strip_fn(c['cm'])])))
+
+
+def strip_fn(v):
+    while v['t'] == 'fn':
+        v = v['ret']
+    return v
 
 
 def signature(c, why):
@@ -193,7 +230,8 @@ def signature(c, why):
         return '%s:%s' % (c['kind'], why)
     if c['kind'] == 'clump':
         return 'clump:%s:%s' % (c['site'], why)
-    return 'dsend:%s' % why
+    cm = c['cm']
+    return 'dsend:%s:%s:%s' % (why, c.get('site', 'do_send'), 'function' if cm['t'] == 'fn' else 'list' if cm['t'] != 'N' else 'none')
 
 
 WHAT = dict(
@@ -248,10 +286,12 @@ def describe(c, t):
         return '%s -> %s pred=%s' % (py[:160], {k: w for k, w in t['out'].items() if k in ('k', 'len', 'exc')} or '',
                                       t.get('pred', {}).get('n'))
     if c['kind'] == 'clump':
-        blobs = [(e['args'][0]['z'] if e['args'] else 0) for e in c['els']]
+        blobs = [(e['args'][0]['z'] if e['args'] and 'z' in e['args'][0] else 0) for e in c['els']]
         return '%s of %d elements (blob sizes %s...) -> datagram lengths %s' % (
             c['site'], len(blobs), blobs[:4], [d['len'] for d in t['out'].get('dgrams', [])][:8])
-    return 'SynthDef of %d bytes -> %s' % (c['n'], t['out'])
+    cm = c['cm']
+    form = ('function returning ' + cm['ret']['t']) if cm['t'] == 'fn' else cm['t']
+    return 'SynthDef.%s of %d bytes, completion %s -> %s' % (c.get('site', '_do_send'), t['n'], form, t['out'])
 
 
 def run(ctx):
@@ -263,6 +303,8 @@ def run(ctx):
     ctx.expect_ok(r, 'OscModel (RoundTrip, Aligned, LenAgrees, PredNotBelow)')
     r = ctx.model_check('OscClump', 'OscClump%s.cfg' % sfx, require_cover=('Feed',), timeout=1500)
     ctx.expect_ok(r, 'OscClump (accumulator loop refines the splitter law)')
+    r = ctx.model_check('OscDsend', 'OscDsend.cfg', require_cover=('PickRecv', 'PickLoad', 'PickRaise'), timeout=300)
+    ctx.expect_ok(r, 'OscDsend (the /d_recv vs /d_load choice made on the resolved completion message is safe and flips)')
 
     # 2. cases
     rnd = random.Random(ctx.seed)
@@ -273,7 +315,7 @@ def run(ctx):
     cases += size_cases(rnd, 600 if thorough else 80)
     cl = clump_cases(rnd, 1200 if thorough else 60)
     cases += cl
-    cases += dsend_cases()
+    cases += dsend_cases(thorough)
     traces = run_cases(ctx, cases)
     ctx.cov['evaluations'] += len(cases)
     judge(ctx, cases, traces)
@@ -288,7 +330,7 @@ def run(ctx):
                        'bundles, extra nesting) + directed values per input class + seeded random messages/bundles '
                        '(<= 40 args, nesting <= 4, 35%% with unrepresentable atoms) + large values (lengths only) + bundles '
                        'through send_clumped_bundles/sync (directed, sweeps over blob residues and thresholds, random) + '
-                       'SynthDef._do_send sweep over the limit; non-trivial = accepted and combining >= 4 input classes, or '
+                       'SynthDef._do_send/send/add/store with every completion form (None, list, bundle, function of the server) swept over the limit; non-trivial = accepted and combining >= 4 input classes, or '
                        'a clump/dsend case; distinct by content' % (2 if thorough else 1))
     ctx.cov['exhaustive'] = False
     ctx.assumptions += [
@@ -321,7 +363,8 @@ MANIFEST = dict(
           'code is bound by trace validation: TLC compares byte for byte what _build_msg/_build_bundle emit and what '
           'OscPacket decodes with the reference for every pool value it printed and for seeded random values, compares '
           'predicted with real sizes, and decides from the datagrams captured at the interface whether '
-          'send_clumped_bundles / sync / SynthDef._do_send stay within 65504 bytes with every element once and in order.'),
+          'send_clumped_bundles / sync / SynthDef.send/add/store/_do_send (completion message as None, list or function of the '
+          'server; the prediction must be made on the resolved list) stay within 65504 bytes with every element once and in order.'),
     note=('Not decided: float64->float32 rounding (done by struct in the projection); byte-exact content of datagrams '
           '> 2 KB (lengths and element order only); addresses not starting with "/"; doubles/MIDI/RGBA tags (never '
           'produced by sc3); predictions that raise instead of returning a number. Trusted: TLC, the projection '
